@@ -148,3 +148,930 @@ fn c05_content_formats() {
     }
     assert!(usize::from(ObserveOption::Register) == 0 && usize::from(ObserveOption::Deregister) == 1);
 }
+
+// ---------------------------------------------------------------------------------------------
+// C03: reference parser (RFC 7252 section 3), three-valued
+// ---------------------------------------------------------------------------------------------
+pub(crate) const REF_MAX_OPTS: usize = 8;
+
+#[derive(Clone, Copy)]
+pub(crate) struct RefOpt {
+    pub number: u32,
+    pub start: usize,
+    pub end: usize,
+}
+
+pub(crate) const V_REJECT: u8 = 0;
+pub(crate) const V_ACCEPT: u8 = 1;
+pub(crate) const V_EITHER: u8 = 2;
+
+pub(crate) struct RefParse {
+    pub verdict: u8,
+    /// why a datagram is malformed: 1 short header, 2 token length 9..15, 3 truncated token,
+    /// 4 nibble 15, 5 truncated extended field, 6 truncated value, 7 option number > 65535
+    pub reason: u8,
+    pub tkl: usize,
+    pub nopts: usize,
+    pub opts: [RefOpt; REF_MAX_OPTS],
+    pub payload_start: usize,
+    pub payload_end: usize,
+}
+
+/// Reference parser written from RFC 7252 section 3 (figure 7, 8 and section 3.1), working on
+/// offsets only. `buf[..len]` is the datagram.
+pub(crate) fn ref_parse(buf: &[u8], len: usize, maxo: usize) -> RefParse {
+    let mut r = RefParse {
+        verdict: V_REJECT,
+        reason: 0,
+        tkl: 0,
+        nopts: 0,
+        opts: [RefOpt { number: 0, start: 0, end: 0 }; REF_MAX_OPTS],
+        payload_start: len,
+        payload_end: len,
+    };
+    if len < 4 {
+        r.reason = 1;
+        return r;
+    }
+    let tkl = (buf[0] & 0x0F) as usize;
+    if tkl > 8 {
+        r.reason = 2;
+        return r;
+    }
+    if 4 + tkl > len {
+        r.reason = 3;
+        return r;
+    }
+    r.tkl = tkl;
+    let mut either = (buf[0] >> 6) != 1;
+    if buf[1] == 0 && len > 4 {
+        // RFC 7252 section 4.1: an Empty message has nothing after the message id; a parser may
+        // reject it or keep what it finds
+        either = true;
+    }
+    let mut idx = 4 + tkl;
+    let mut number: u32 = 0;
+    let mut k = 0;
+    while k < maxo + 1 {
+        if idx >= len {
+            break;
+        }
+        let b = buf[idx];
+        if b == 0xFF {
+            r.payload_start = idx + 1;
+            if idx + 1 == len {
+                // marker followed by a zero-length payload: RFC says MUST be treated as a format
+                // error; tolerated by this crate: either
+                either = true;
+            }
+            break;
+        }
+        if k == maxo {
+            // more options than the reference can hold: no opinion
+            r.verdict = V_EITHER;
+            r.nopts = 0;
+            return r;
+        }
+        let dn = (b >> 4) as u32;
+        let ln = (b & 0x0F) as u32;
+        idx += 1;
+        if dn == 15 || ln == 15 {
+            r.reason = 4;
+            return r;
+        }
+        let mut delta = dn;
+        if dn == 13 {
+            if idx >= len {
+                r.reason = 5;
+                return r;
+            }
+            delta = buf[idx] as u32 + 13;
+            idx += 1;
+        } else if dn == 14 {
+            if idx + 1 >= len {
+                r.reason = 5;
+                return r;
+            }
+            delta = ((buf[idx] as u32) << 8 | buf[idx + 1] as u32) + 269;
+            idx += 2;
+        }
+        let mut length = ln as usize;
+        if ln == 13 {
+            if idx >= len {
+                r.reason = 5;
+                return r;
+            }
+            length = buf[idx] as usize + 13;
+            idx += 1;
+        } else if ln == 14 {
+            if idx + 1 >= len {
+                r.reason = 5;
+                return r;
+            }
+            length = ((buf[idx] as usize) << 8 | buf[idx + 1] as usize) + 269;
+            idx += 2;
+        }
+        number += delta;
+        if number > 65535 {
+            r.reason = 7;
+            return r;
+        }
+        if idx + length > len {
+            r.reason = 6;
+            return r;
+        }
+        r.opts[k] = RefOpt { number, start: idx, end: idx + length };
+        idx += length;
+        k += 1;
+        r.nopts = k;
+    }
+    r.verdict = if either { V_EITHER } else { V_ACCEPT };
+    r
+}
+
+/// Compare a parsed packet with the reference parse, field by field. Options are compared
+/// without nested iteration: the total count must match, and the reference option at one
+/// symbolic index k must be the j-th value stored under its number (j = how many earlier
+/// reference options share the number).
+fn c03_compare(p: &Packet, buf: &[u8], len: usize, r: &RefParse, maxo: usize, contents: bool) {
+    assert!(p.header.get_version() == buf[0] >> 6, "C03: version field");
+    assert!(p.header.get_token_length() as usize == r.tkl, "C03: token length field");
+    assert!(u8::from(p.header.code) == buf[1], "C03: code byte");
+    assert!(p.header.message_id == ((buf[2] as u16) << 8 | buf[3] as u16), "C03: message id big-endian");
+    assert!(p.get_token().len() == r.tkl, "C03: token length");
+    let ti: usize = kani::any();
+    if contents && ti < r.tkl {
+        assert!(p.get_token()[ti] == buf[4 + ti], "C03: token bytes");
+    }
+    let mut total = 0usize;
+    for (_, list) in p.options.iter() {
+        total += list.len();
+    }
+    assert!(total == r.nopts, "C03: parser returned exactly the option values the datagram holds");
+    let k: usize = kani::any();
+    if k < r.nopts {
+        let o = r.opts[k];
+        let mut j = 0usize;
+        let mut t = 0usize;
+        while t < maxo {
+            if t < k && r.opts[t].number == o.number {
+                j += 1;
+            }
+            t += 1;
+        }
+        match p.options.get(&(o.number as u16)) {
+            None => assert!(false, "C03: option number = sum of deltas"),
+            Some(list) => match list.iter().nth(j) {
+                None => assert!(false, "C03: repeated option values keep their wire order"),
+                Some(v) => {
+                    assert!(v.len() == o.end - o.start, "C03: option value length");
+                    let b: usize = kani::any();
+                    if contents && b < v.len() {
+                        assert!(v[b] == buf[o.start + b], "C03: option value bytes");
+                    }
+                }
+            },
+        }
+    }
+    assert!(p.payload.len() == r.payload_end - r.payload_start, "C03: payload length");
+    let pi: usize = kani::any();
+    if contents && pi < p.payload.len() {
+        assert!(p.payload[pi] == buf[r.payload_start + pi], "C03: payload bytes");
+    }
+}
+
+macro_rules! c03_total {
+    ($name:ident, $n:expr, $u:expr, $cmp:expr) => {
+        #[kani::proof]
+        #[kani::unwind($u)]
+        #[kani::stub(core::fmt::write, crate::verif_harness::stub_write)]
+        fn $name() {
+            const N: usize = $n;
+            let buf: [u8; N] = kani::any();
+            let len: usize = kani::any();
+            kani::assume(len <= N);
+            let r = ref_parse(&buf, len, N - 4);
+            let res = Packet::from_bytes(&buf[..len]);
+            match res {
+                Ok(p) => {
+                    assert!(r.verdict != V_REJECT, "C03: malformed datagram accepted");
+                    if r.verdict == V_ACCEPT && $cmp {
+                        c03_compare(&p, &buf, len, &r, N - 4, false);
+                    }
+                    kani::cover!(r.nopts >= 2, "accepted with two or more options");
+                    kani::cover!(r.payload_start < len, "accepted with a payload");
+                    kani::cover!(r.tkl == 4, "accepted with a four-byte token");
+                    core::mem::forget(p);
+                }
+                Err(_) => {
+                    assert!(r.verdict != V_ACCEPT, "C03: well-formed version-1 datagram rejected");
+                    kani::cover!(r.reason == 1, "rejected: shorter than four bytes");
+                    kani::cover!(r.reason == 2, "rejected: token length 9..15");
+                    kani::cover!(r.reason == 3, "rejected: truncated token");
+                    kani::cover!(r.reason == 4, "rejected: nibble 15");
+                    kani::cover!(r.reason == 5, "rejected: truncated extended field");
+                    kani::cover!(r.reason == 6, "rejected: truncated option value");
+                }
+            }
+        }
+    };
+}
+
+//@ props=C03 tier=quick timeout=1500 mem=24 cap=4 witness=c03_total_6 name=c03_total_8
+//@ functions=Packet::from_bytes, HeaderRaw::try_from, Header::from_raw, MessageClass::from
+//@ bounds=every byte string of length 0..8 (length and all bytes symbolic); unwind 7
+//@ what=never panics/overflows/reads out of bounds (Kani's implicit checks); must-reject => Err; must-accept => Ok (verdict only; field equality is c03_fields_*)
+//@ assumes=option map is the fixed-capacity array model (capacity = max distinct numbers an 8-byte datagram can hold)
+c03_total!(c03_total_8, 8, 7, false);
+
+//@ props=C03 tier=witness timeout=1200 mem=30 cap=2 name=c03_total_6
+//@ functions=Packet::from_bytes
+//@ bounds=every byte string of length 0..6; only used to extract concrete counterexamples (trace generation on the 8-byte harness does not fit in memory)
+//@ what=as c03_total_8
+c03_total!(c03_total_6, 6, 5, false);
+
+//@ props=C03,C02 tier=quick timeout=1800 mem=24 cap=3 witness=c03_total_6 name=c03_framing_7
+//@ functions=Packet::from_bytes, HeaderRaw::try_from, Header::from_raw, MessageClass::from
+//@ bounds=every byte string of length 0..7 (length and all bytes symbolic); unwind 6
+//@ what=as c03_total_8 plus the framing of an accepted well-formed datagram: version, type, token length, code, id, number of option values, each option's number and length (at a symbolic index, repeated numbers in wire order), payload length - all equal to the RFC 7252 reference parse. Byte contents are compared by c03_content_*
+//@ assumes=option map is the fixed-capacity array model
+c03_total!(c03_framing_7, 7, 6, true);
+
+//@ props=C03,C02 tier=thorough timeout=3600 mem=40 cap=4 name=c03_framing_8
+//@ functions=Packet::from_bytes
+//@ bounds=every byte string of length 0..8; unwind 7
+//@ what=as c03_framing_7 at 8 bytes
+c03_total!(c03_framing_8, 8, 7, true);
+
+/// Content equality on datagrams of a concrete layout: token length, option length nibbles and
+/// extension classes are fixed by the shape, every other bit (deltas, extended delta bytes,
+/// values, ids, token, payload) is symbolic. Keeps every `to_vec()` length concrete.
+macro_rules! c03_content {
+    ($name:ident, $n:expr, $build:expr) => {
+        #[kani::proof]
+        #[kani::unwind(7)]
+        #[kani::stub(core::fmt::write, crate::verif_harness::stub_write)]
+        fn $name() {
+            const N: usize = $n;
+            let mut buf: [u8; N] = kani::any();
+            ($build)(&mut buf);
+            let r = ref_parse(&buf, N, 4);
+            match Packet::from_bytes(&buf[..]) {
+                Ok(p) => {
+                    assert!(r.verdict != V_REJECT, "C03: malformed datagram accepted");
+                    if r.verdict == V_ACCEPT {
+                        c03_compare(&p, &buf, N, &r, 4, true);
+                        kani::cover!(r.nopts >= 2 && r.opts[0].number == r.opts[1].number, "repeated option number");
+                        kani::cover!(r.nopts >= 2 && r.opts[1].number > 300, "a large second option number");
+                    }
+                    core::mem::forget(p);
+                }
+                Err(_) => {
+                    assert!(r.verdict != V_ACCEPT, "C03: well-formed version-1 datagram rejected");
+                }
+            }
+        }
+    };
+}
+
+//@ props=C03,C02 tier=quick timeout=1800 mem=24 cap=3 name=c03_content_a
+//@ functions=Packet::from_bytes
+//@ bounds=layout: version 1, TKL 2, option (delta nibble 0..12 symbolic, length 1), option (delta 13 + one extended byte symbolic, length 2), 0xFF, 1 payload byte = 14 bytes; all other bits symbolic
+//@ what=an accepted datagram yields token, option values (in wire order) and payload byte for byte as in the datagram
+c03_content!(c03_content_a, 14, |b: &mut [u8; 14]| {
+    b[0] = 0x40 | (b[0] & 0x30) | 2;
+    kani::assume(b[1] != 0);
+    kani::assume((b[6] >> 4) <= 12);
+    b[6] = (b[6] & 0xF0) | 1;
+    b[8] = 0xD2;
+    b[12] = 0xFF;
+});
+
+//@ props=C03,C02 tier=quick timeout=1800 mem=24 cap=3 name=c03_content_b
+//@ functions=Packet::from_bytes
+//@ bounds=layout: version 1, TKL 0, option (delta 14 + two extended bytes symbolic, length 0), option (delta nibble 0..12, length 13 + extended byte 0 => 13 value bytes), no payload = 4 + 3 + 2 + 13 = 22 bytes; all other bits symbolic
+//@ what=as c03_content_a; reaches an accepted two-byte extended delta and a one-byte extended length
+c03_content!(c03_content_b, 22, |b: &mut [u8; 22]| {
+    b[0] = 0x40 | (b[0] & 0x30);
+    kani::assume(b[1] != 0);
+    b[4] = 0xE0;
+    kani::assume((b[7] >> 4) <= 12);
+    b[7] = (b[7] & 0xF0) | 13;
+    b[8] = 0;
+});
+
+//@ props=C03 tier=thorough timeout=3600 mem=40 cap=7 name=c03_total_11
+//@ functions=Packet::from_bytes, HeaderRaw::try_from, Header::from_raw, MessageClass::from
+//@ bounds=every byte string of length 0..11 (length and all bytes symbolic); unwind 10
+//@ what=as c03_total_8 at 11 bytes: room for a token plus two extended-delta options, or the 65535 option-number overflow via two 3-byte headers
+c03_total!(c03_total_11, 11, 10, false);
+
+// ---------------------------------------------------------------------------------------------
+// C01: encoder = RFC 7252 wire image
+// ---------------------------------------------------------------------------------------------
+fn any_type(tn: u8) -> crate::MessageType {
+    match tn & 3 {
+        0 => crate::MessageType::Confirmable,
+        1 => crate::MessageType::NonConfirmable,
+        2 => crate::MessageType::Acknowledgement,
+        _ => crate::MessageType::Reset,
+    }
+}
+
+fn one_value(v: Vec<u8>) -> LinkedList<Vec<u8>> {
+    let mut l = LinkedList::new();
+    l.push_back(v);
+    l
+}
+
+//@ props=C01 tier=quick timeout=900 mem=10 cap=2
+//@ functions=Packet::to_bytes_internal, Packet::set_token, Header::set_version, Header::set_type, Header::to_raw, HeaderRaw::serialize_into
+//@ bounds=version 0..3 and type set in both orders, code: all 256, message id: all 65536, token: length 0..8 with symbolic bytes; no options, no payload
+//@ what=bytes = [Ver<<6|T<<4|TKL, code, id_hi, id_lo, token...] exactly
+#[kani::proof]
+#[kani::unwind(10)]
+#[kani::stub(core::fmt::write, crate::verif_harness::stub_write)]
+fn c01_header_token() {
+    let mut p = Packet::new();
+    let b0: u8 = kani::any();
+    if kani::any() {
+        p.header.set_version(b0 >> 6);
+        p.header.set_type(any_type(b0 >> 4));
+    } else {
+        p.header.set_type(any_type(b0 >> 4));
+        p.header.set_version(b0 >> 6);
+    }
+    let code: u8 = kani::any();
+    p.header.code = MessageClass::from(code);
+    let mid: u16 = kani::any();
+    p.header.message_id = mid;
+    let tok: [u8; 8] = kani::any();
+    let tl: usize = kani::any();
+    kani::assume(tl <= 8);
+    p.set_token(tok[..tl].to_vec());
+    let bytes = match p.to_bytes() {
+        Ok(b) => b,
+        Err(_) => { assert!(false, "C01: a small message encodes"); return; }
+    };
+    assert!(bytes.len() == 4 + tl, "C01: header + token length");
+    assert!(bytes[0] == (b0 & 0xF0) | tl as u8, "C01: first byte = Ver<<6 | T<<4 | TKL");
+    assert!(bytes[1] == code, "C01: code byte");
+    assert!(bytes[2] == (mid >> 8) as u8 && bytes[3] == mid as u8, "C01: message id big-endian");
+    let i: usize = kani::any();
+    if i < tl {
+        assert!(bytes[4 + i] == tok[i], "C01: token bytes follow the header");
+    }
+    kani::cover!(tl == 8 && (b0 >> 6) == 0, "eight-byte token, version 0");
+    kani::cover!(tl == 0, "no token");
+    core::mem::forget(p);
+}
+
+//@ props=C01,C02 tier=quick timeout=900 mem=10 cap=2
+//@ functions=Packet::to_bytes_internal (payload marker)
+//@ bounds=code: all 256; token length 3 (concrete) with symbolic bytes; payload length 0..3 with symbolic bytes
+//@ what=a 0xFF marker and the payload follow the token iff the code is not 0.00 and the payload is non-empty; a 0.00 message carries neither
+#[kani::proof]
+#[kani::unwind(6)]
+#[kani::stub(core::fmt::write, crate::verif_harness::stub_write)]
+fn c01_payload_marker() {
+    let mut p = Packet::new();
+    let code: u8 = kani::any();
+    p.header.code = MessageClass::from(code);
+    let tok: [u8; 3] = kani::any();
+    p.set_token(tok.to_vec());
+    let pay: [u8; 3] = kani::any();
+    let pl: usize = kani::any();
+    kani::assume(pl <= 3);
+    p.payload = pay[..pl].to_vec();
+    let bytes = match p.to_bytes() {
+        Ok(b) => b,
+        Err(_) => { assert!(false, "C01: a small message encodes"); return; }
+    };
+    let sent = code != 0 && pl > 0;
+    assert!(bytes.len() == 7 + if sent { 1 + pl } else { 0 }, "C01: marker and payload are present iff a payload is sent");
+    assert!(bytes[4] == tok[0] && bytes[6] == tok[2]);
+    if sent {
+        assert!(bytes[7] == 0xFF, "C01: payload marker");
+        let i: usize = kani::any();
+        if i < pl {
+            assert!(bytes[8 + i] == pay[i], "C01: payload bytes follow the marker");
+        }
+    }
+    kani::cover!(code == 0 && pl > 0, "0.00 with a payload set: nothing is sent");
+    kani::cover!(sent && pl == 3, "three-byte payload");
+    kani::cover!(code != 0 && pl == 0, "no payload, no marker");
+    core::mem::forget(p);
+}
+
+//@ props=C01 tier=quick timeout=1800 mem=16 cap=2
+//@ functions=Packet::to_bytes_internal (option header: delta and length nibbles, extended fields)
+//@ bounds=one option: number = every u16 (first option: delta = number, incl. 258 and the gap 256..268), value length symbolic 0..300 (both sides of 13 and 269), value bytes all equal to one symbolic byte; message id symbolic; no token, no payload
+//@ what=option header bytes equal the RFC 7252 section 3.1 reference encoding of (delta, length); value bytes follow; total length exact
+//@ assumes=the entry is placed in slot 0 of the array model (sorting is std's job)
+#[kani::proof]
+#[kani::unwind(4)]
+#[kani::stub(core::fmt::write, crate::verif_harness::stub_write)]
+fn c01_one_option_len() {
+    let mut p = Packet::new();
+    p.header.message_id = kani::any();
+    let n1: u16 = kani::any();
+    let l: usize = kani::any();
+    kani::assume(l <= 300);
+    let x: u8 = kani::any();
+    p.options.verif_push_sorted(n1, one_value(vec![x; l]));
+    let mut h = [0u8; 5];
+    let hn = ref_opt_hdr(n1 as u32, l as u32, &mut h);
+    let bytes = match p.to_bytes_unlimited() {
+        Ok(b) => b,
+        Err(_) => { assert!(false, "C01: encodes"); return; }
+    };
+    assert!(bytes.len() == 4 + hn + l, "C01: total length = header + option header + value");
+    let i: usize = kani::any();
+    if i < hn {
+        assert!(bytes[4 + i] == h[i], "C01: option header = RFC 7252 delta/length nibbles and extended fields");
+    }
+    let j: usize = kani::any();
+    if j < l {
+        assert!(bytes[4 + hn + j] == x, "C01: option value bytes follow the option header");
+    }
+    kani::cover!(n1 == 258 && l == 1, "No-Response as the first option");
+    kani::cover!(n1 >= 256 && n1 <= 268 && l == 13, "number in the gap 256..268, length 13");
+    kani::cover!(l == 269 && n1 == 269, "both fields at 269");
+    kani::cover!(l == 268 && n1 == 12, "length 268, delta 12");
+    kani::cover!(n1 == 65535 && l == 300, "largest number");
+    core::mem::forget(p);
+}
+
+//@ props=C01 tier=quick timeout=1800 mem=16 cap=3
+//@ functions=Packet::to_bytes_internal (running delta)
+//@ bounds=two options in slots 0 and 1 with symbolic numbers n1 < n2 (every pair), one symbolic value byte each; message id symbolic
+//@ what=first header encodes n1, second encodes n2 - n1; values in place; total length exact
+//@ assumes=entries placed in ascending slots of the array model (n1 < n2 assumed)
+#[kani::proof]
+#[kani::unwind(5)]
+#[kani::stub(core::fmt::write, crate::verif_harness::stub_write)]
+fn c01_two_options() {
+    let mut p = Packet::new();
+    p.header.message_id = kani::any();
+    let n1: u16 = kani::any();
+    let n2: u16 = kani::any();
+    kani::assume(n1 < n2);
+    let a: u8 = kani::any();
+    let b: u8 = kani::any();
+    p.options.verif_push_sorted(n1, one_value(vec![a]));
+    p.options.verif_push_sorted(n2, one_value(vec![b]));
+    let mut h1 = [0u8; 5];
+    let mut h2 = [0u8; 5];
+    let hn1 = ref_opt_hdr(n1 as u32, 1, &mut h1);
+    let hn2 = ref_opt_hdr((n2 - n1) as u32, 1, &mut h2);
+    let bytes = match p.to_bytes_unlimited() {
+        Ok(b) => b,
+        Err(_) => { assert!(false, "C01: encodes"); return; }
+    };
+    assert!(bytes.len() == 4 + hn1 + 1 + hn2 + 1, "C01: total length with two options");
+    let i: usize = kani::any();
+    if i < hn1 {
+        assert!(bytes[4 + i] == h1[i], "C01: first option header encodes its number");
+    }
+    assert!(bytes[4 + hn1] == a, "C01: first value");
+    let j: usize = kani::any();
+    if j < hn2 {
+        assert!(bytes[4 + hn1 + 1 + j] == h2[j], "C01: second option header encodes the difference of the numbers");
+    }
+    assert!(bytes[4 + hn1 + 1 + hn2] == b, "C01: second value");
+    kani::cover!(n2 - n1 == 13, "delta 13");
+    kani::cover!(n2 - n1 == 269 && n1 == 12, "delta 269 after delta 12");
+    kani::cover!(n1 == 0 && n2 == 65535, "largest delta");
+    core::mem::forget(p);
+}
+
+//@ props=C01 tier=quick timeout=1200 mem=12 cap=2
+//@ functions=Packet::add_option (repeat), Packet::to_bytes_internal (delta 0)
+//@ bounds=one symbolic number (every u16), three values of 1, 0 and 2 symbolic bytes added through the public add_option
+//@ what=repeated options are emitted in insertion order, the second and third with delta 0
+#[kani::proof]
+#[kani::unwind(6)]
+#[kani::stub(core::fmt::write, crate::verif_harness::stub_write)]
+fn c01_same_number() {
+    let mut p = Packet::new();
+    let n1: u16 = kani::any();
+    let a: u8 = kani::any();
+    let c: [u8; 2] = kani::any();
+    p.add_option(CoapOption::from(n1), vec![a]);
+    p.add_option(CoapOption::from(n1), vec![]);
+    p.add_option(CoapOption::from(n1), c.to_vec());
+    let bytes = match p.to_bytes_unlimited() {
+        Ok(b) => b,
+        Err(_) => { assert!(false, "C01: encodes"); return; }
+    };
+    let mut h = [0u8; 5];
+    let hn = ref_opt_hdr(n1 as u32, 1, &mut h);
+    assert!(bytes.len() == 4 + hn + 1 + 1 + 1 + 2, "C01: three values under one number");
+    let i: usize = kani::any();
+    if i < hn {
+        assert!(bytes[4 + i] == h[i], "C01: first of the repeated options carries the number");
+    }
+    assert!(bytes[4 + hn] == a, "C01: first value");
+    assert!(bytes[4 + hn + 1] == 0x00, "C01: repeated option: delta 0, length 0");
+    assert!(bytes[4 + hn + 2] == 0x02 && bytes[4 + hn + 3] == c[0] && bytes[4 + hn + 4] == c[1], "C01: repeated option: delta 0, in insertion order");
+    kani::cover!(n1 == 258, "repeated No-Response");
+    kani::cover!(n1 == 11, "repeated Uri-Path");
+    core::mem::forget(p);
+}
+
+//@ props=C01 tier=quick timeout=1200 mem=12 cap=3
+//@ functions=Packet::clear_option, Packet::add_option, Packet::set_option, Packet::to_bytes_internal (empty value list)
+//@ bounds=numbers 11 and 12 (concrete), symbolic value bytes; option 11 is cleared and optionally re-added; option 12 follows
+//@ what=a cleared option emits nothing and does not disturb the delta of the next option; re-adding emits exactly the new value
+#[kani::proof]
+#[kani::unwind(6)]
+#[kani::stub(core::fmt::write, crate::verif_harness::stub_write)]
+fn c01_clear_readd() {
+    let mut p = Packet::new();
+    let a: u8 = kani::any();
+    let b: u8 = kani::any();
+    let c: u8 = kani::any();
+    p.add_option(CoapOption::UriPath, vec![a]);
+    p.add_option(CoapOption::UriPath, vec![a, a]);
+    p.add_option(CoapOption::ContentFormat, vec![b]);
+    p.clear_option(CoapOption::UriPath);
+    let readd: bool = kani::any();
+    if readd {
+        p.add_option(CoapOption::UriPath, vec![c]);
+    }
+    let bytes = match p.to_bytes_unlimited() {
+        Ok(b) => b,
+        Err(_) => { assert!(false, "C01: encodes"); return; }
+    };
+    if readd {
+        assert!(bytes.len() == 4 + 2 + 2, "C01: cleared and re-added option emits only the new value");
+        assert!(bytes[4] == 0xB1 && bytes[5] == c && bytes[6] == 0x11 && bytes[7] == b, "C01: re-added option then the next option with delta 1");
+        kani::cover!(true, "re-added");
+    } else {
+        assert!(bytes.len() == 4 + 2, "C01: a cleared option emits nothing");
+        assert!(bytes[4] == 0xC1 && bytes[5] == b, "C01: the next option's delta counts from the last emitted option");
+        kani::cover!(true, "cleared only");
+    }
+    core::mem::forget(p);
+}
+
+//@ props=C01 tier=quick timeout=1500 mem=14 cap=3
+//@ functions=Packet::add_option (both orders), Packet::to_bytes_internal
+//@ bounds=pairs of concrete numbers from each delta class: (11, 12) (11, 23) (11, 300) (3, 258+14=272), public add_option in either order (symbolic), symbolic one-byte values
+//@ what=the encoding does not depend on the order of the add_option calls: ascending numbers, deltas between them
+#[kani::proof]
+#[kani::unwind(6)]
+#[kani::stub(core::fmt::write, crate::verif_harness::stub_write)]
+fn c01_api_order() {
+    let which: u8 = kani::any();
+    kani::assume(which < 4);
+    let (n1, n2): (u16, u16) = match which {
+        0 => (11, 12),
+        1 => (11, 23),
+        2 => (11, 300),
+        _ => (3, 272),
+    };
+    let a: u8 = kani::any();
+    let b: u8 = kani::any();
+    let mut p = Packet::new();
+    if kani::any() {
+        p.add_option(CoapOption::from(n1), vec![a]);
+        p.add_option(CoapOption::from(n2), vec![b]);
+    } else {
+        p.add_option(CoapOption::from(n2), vec![b]);
+        p.add_option(CoapOption::from(n1), vec![a]);
+    }
+    let bytes = match p.to_bytes_unlimited() {
+        Ok(b) => b,
+        Err(_) => { assert!(false, "C01: encodes"); return; }
+    };
+    let mut h1 = [0u8; 5];
+    let mut h2 = [0u8; 5];
+    let hn1 = ref_opt_hdr(n1 as u32, 1, &mut h1);
+    let hn2 = ref_opt_hdr((n2 - n1) as u32, 1, &mut h2);
+    assert!(bytes.len() == 4 + hn1 + 1 + hn2 + 1, "C01: total length");
+    assert!(hn1 == 1 && bytes[4] == h1[0] && bytes[5] == a, "C01: lower number first whatever the call order");
+    let j: usize = kani::any();
+    if j < hn2 {
+        assert!(bytes[6 + j] == h2[j], "C01: second header = difference of the numbers");
+    }
+    assert!(bytes[6 + hn2] == b, "C01: second value");
+    kani::cover!(which == 2, "delta 289 (two-byte extension)");
+    kani::cover!(which == 3, "delta 269 exactly");
+    core::mem::forget(p);
+}
+
+//@ props=C01 tier=thorough timeout=3000 mem=30 cap=4
+//@ functions=Packet::to_bytes_internal (running delta over three options)
+//@ bounds=three options in slots 0..2 with symbolic numbers n1 < n2 < n3, value lengths 0..2 (symbolic) of one symbolic byte; payload of one symbolic byte, code symbolic
+//@ what=each header encodes the difference to the previous number and its own length; marker and payload follow iff code != 0.00
+//@ assumes=entries placed in ascending slots of the array model
+#[kani::proof]
+#[kani::unwind(6)]
+#[kani::stub(core::fmt::write, crate::verif_harness::stub_write)]
+fn c01_three_options() {
+    let mut p = Packet::new();
+    let code: u8 = kani::any();
+    p.header.code = MessageClass::from(code);
+    let n1: u16 = kani::any();
+    let n2: u16 = kani::any();
+    let n3: u16 = kani::any();
+    kani::assume(n1 < n2 && n2 < n3);
+    let (l1, l2, l3): (usize, usize, usize) = (kani::any(), kani::any(), kani::any());
+    kani::assume(l1 <= 2 && l2 <= 2 && l3 <= 2);
+    let x: u8 = kani::any();
+    p.options.verif_push_sorted(n1, one_value(vec![x; l1]));
+    p.options.verif_push_sorted(n2, one_value(vec![x; l2]));
+    p.options.verif_push_sorted(n3, one_value(vec![x; l3]));
+    let pay: u8 = kani::any();
+    p.payload = vec![pay];
+    let mut h1 = [0u8; 5];
+    let mut h2 = [0u8; 5];
+    let mut h3 = [0u8; 5];
+    let hn1 = ref_opt_hdr(n1 as u32, l1 as u32, &mut h1);
+    let hn2 = ref_opt_hdr((n2 - n1) as u32, l2 as u32, &mut h2);
+    let hn3 = ref_opt_hdr((n3 - n2) as u32, l3 as u32, &mut h3);
+    let bytes = match p.to_bytes_unlimited() {
+        Ok(b) => b,
+        Err(_) => { assert!(false, "C01: encodes"); return; }
+    };
+    let o2 = 4 + hn1 + l1;
+    let o3 = o2 + hn2 + l2;
+    let end = o3 + hn3 + l3;
+    assert!(bytes.len() == end + if code != 0 { 2 } else { 0 }, "C01: total length with three options");
+    let i: usize = kani::any();
+    if i < hn1 { assert!(bytes[4 + i] == h1[i], "C01: first header"); }
+    if i < hn2 { assert!(bytes[o2 + i] == h2[i], "C01: second header = n2 - n1"); }
+    if i < hn3 { assert!(bytes[o3 + i] == h3[i], "C01: third header = n3 - n2"); }
+    if code != 0 {
+        assert!(bytes[end] == 0xFF && bytes[end + 1] == pay, "C01: marker and payload after the options");
+    }
+    kani::cover!(n3 - n2 == 13 && n2 - n1 == 269, "mixed extension classes");
+    core::mem::forget(p);
+}
+
+// ---------------------------------------------------------------------------------------------
+// C04: size limit and buffers
+// ---------------------------------------------------------------------------------------------
+fn c04_check(p: &Packet, exact: usize) {
+    let limit: usize = kani::any();
+    match p.to_bytes_with_limit(limit) {
+        Ok(b) => {
+            assert!(exact <= limit, "C04: a message longer than the limit is refused");
+            assert!(b.len() == exact, "C04: output has exactly the wire length");
+            kani::cover!(exact == limit, "exactly at the limit");
+        }
+        Err(e) => {
+            assert!(exact > limit, "C04: a message within the limit is serialised");
+            assert!(e == MessageError::InvalidPacketLength, "C04: the refusal is a packet-length error");
+            kani::cover!(exact == limit + 1, "one byte over the limit");
+        }
+    }
+    match p.to_bytes() {
+        Ok(b) => {
+            assert!(exact <= Packet::MAX_SIZE, "C04: default limit");
+            assert!(b.len() == exact);
+        }
+        Err(e) => {
+            assert!(exact > Packet::MAX_SIZE, "C04: default limit is MAX_SIZE");
+            assert!(e == MessageError::InvalidPacketLength);
+        }
+    }
+    match p.to_bytes_unlimited() {
+        Ok(b) => assert!(b.len() == exact, "C04: unlimited output has exactly the wire length"),
+        Err(_) => assert!(false, "C04: the unlimited call does not refuse on size"),
+    }
+}
+
+//@ props=C04 tier=quick timeout=1500 mem=14 cap=2
+//@ functions=Packet::to_bytes, Packet::to_bytes_with_limit, Packet::to_bytes_unlimited, Packet::to_bytes_internal
+//@ bounds=no options, code: all 256, payload length symbolic 0..1400 (zero bytes), limit: every usize
+//@ what=Ok with exactly the wire length (4 + marker and payload when a payload is sent) iff that length <= limit, else a packet-length error; to_bytes() = limit MAX_SIZE; unlimited always Ok; all raw copies stay inside their reservations (Kani's pointer checks)
+#[kani::proof]
+#[kani::unwind(4)]
+#[kani::stub(core::fmt::write, crate::verif_harness::stub_write)]
+fn c04_limit_payload() {
+    let mut p = Packet::new();
+    let code: u8 = kani::any();
+    p.header.code = MessageClass::from(code);
+    let pl: usize = kani::any();
+    kani::assume(pl <= 1400);
+    p.payload = vec![0u8; pl];
+    let exact = 4 + if code != 0 && pl > 0 { 1 + pl } else { 0 };
+    c04_check(&p, exact);
+    kani::cover!(code == 0 && pl == 1300, "0.00 message with a large payload set");
+    kani::cover!(code != 0 && exact == 1280, "payload lands on the default limit");
+    core::mem::forget(p);
+}
+
+//@ props=C04 tier=quick timeout=1500 mem=14 cap=2
+//@ functions=Packet::to_bytes_with_limit, Packet::to_bytes_internal
+//@ bounds=one option (number 15 or 300: one- and three-byte delta) with value length symbolic 0..1400, token 2 bytes, no payload, limit: every usize
+//@ what=the limit counts option header and value bytes exactly
+#[kani::proof]
+#[kani::unwind(4)]
+#[kani::stub(core::fmt::write, crate::verif_harness::stub_write)]
+fn c04_limit_option() {
+    let mut p = Packet::new();
+    p.set_token(vec![1, 2]);
+    let big: bool = kani::any();
+    let n: u16 = if big { 300 } else { 15 };
+    let l: usize = kani::any();
+    kani::assume(l <= 1400);
+    p.options.verif_push_sorted(n, one_value(vec![0u8; l]));
+    let mut h = [0u8; 5];
+    let hn = ref_opt_hdr(n as u32, l as u32, &mut h);
+    let exact = 4 + 2 + hn + l;
+    c04_check(&p, exact);
+    kani::cover!(exact == 1281, "one byte over the default limit through an option");
+    kani::cover!(big && l == 269, "extended delta and extended length");
+    core::mem::forget(p);
+}
+
+//@ props=C04 tier=quick timeout=1500 mem=14 cap=2
+//@ functions=Packet::to_bytes_with_limit, Packet::to_bytes_internal
+//@ bounds=token length symbolic 0..8, one option of 1 byte, payload of 1 byte, code symbolic, limit: every usize
+//@ what=the limit counts the token and the marker
+#[kani::proof]
+#[kani::unwind(10)]
+#[kani::stub(core::fmt::write, crate::verif_harness::stub_write)]
+fn c04_limit_token() {
+    let mut p = Packet::new();
+    let code: u8 = kani::any();
+    p.header.code = MessageClass::from(code);
+    let tl: usize = kani::any();
+    kani::assume(tl <= 8);
+    p.set_token(vec![9u8; tl]);
+    p.options.verif_push_sorted(11, one_value(vec![b'x']));
+    p.payload = vec![1];
+    let exact = 4 + tl + 2 + if code != 0 { 2 } else { 0 };
+    c04_check(&p, exact);
+    kani::cover!(tl == 8 && code != 0, "eight-byte token with payload");
+    core::mem::forget(p);
+}
+
+//@ props=C04 tier=thorough timeout=3000 mem=30 cap=2
+//@ functions=Packet::to_bytes_internal (16-bit extended length)
+//@ bounds=one option whose value length is symbolic in 65790..65820 (around 65535 + 269 = 65804)
+//@ what=lengths up to 65804 are emitted with the correct 16-bit extended length; longer values are refused rather than emitted with a truncated length
+#[kani::proof]
+#[kani::unwind(4)]
+#[kani::stub(core::fmt::write, crate::verif_harness::stub_write)]
+fn c04_len16() {
+    let mut p = Packet::new();
+    let l: usize = kani::any();
+    kani::assume(l >= 65790 && l <= 65820);
+    p.options.verif_push_sorted(1, one_value(vec![0u8; l]));
+    match p.to_bytes_unlimited() {
+        Ok(b) => {
+            assert!(l <= 65535 + 269, "C04: an option value too long for the 16-bit length field is refused");
+            assert!(b.len() == 4 + 3 + l);
+            let ext = l - 269;
+            assert!(b[4] == 0x1E && b[5] == (ext >> 8) as u8 && b[6] == ext as u8, "C04: 16-bit extended length");
+            kani::cover!(l == 65804, "largest encodable length");
+        }
+        Err(_) => {
+            assert!(l > 65535 + 269, "C04: encodable lengths are not refused");
+            kani::cover!(l == 65805, "first unencodable length");
+        }
+    }
+    core::mem::forget(p);
+}
+
+// ---------------------------------------------------------------------------------------------
+// C19 / C06: typed accessors on Packet
+// ---------------------------------------------------------------------------------------------
+
+//@ props=C19 tier=quick timeout=1200 mem=12 cap=2
+//@ functions=Packet::set_content_format, Packet::get_content_format, Packet::add_option_as::<OptionValueU16>, Packet::get_first_option_as
+//@ bounds=format: every registered content format (via try_from of a symbolic usize); pre-state: no Content-Format, or one earlier value set through the same setter (any registered format), or one raw value of 0..3 symbolic bytes
+//@ what=after set_content_format(f): get_content_format() = Some(f) and the raw option is exactly one value = shortest big-endian id, whatever was there before; get on raw bytes: named format iff the big-endian value (length <= 2) is a registered id
+#[kani::proof]
+#[kani::unwind(6)]
+#[kani::stub(core::fmt::write, crate::verif_harness::stub_write)]
+fn c19_content_format() {
+    let mut p = Packet::new();
+    let pre: u8 = kani::any();
+    kani::assume(pre < 3);
+    let raw: [u8; 3] = kani::any();
+    let rl: usize = kani::any();
+    kani::assume(rl <= 3);
+    let g: usize = kani::any();
+    match pre {
+        0 => {}
+        1 => {
+            if let Ok(f0) = ContentFormat::try_from(g) {
+                p.set_content_format(f0);
+                assert!(p.get_content_format() == Some(f0), "C19: set_content_format then get_content_format on a fresh message");
+            }
+        }
+        _ => {
+            p.add_option(CoapOption::ContentFormat, raw[..rl].to_vec());
+            // getter on raw bytes
+            let mut v: usize = 0;
+            let mut k = 0;
+            while k < 3 {
+                if k < rl {
+                    v = v << 8 | raw[k] as usize;
+                }
+                k += 1;
+            }
+            match p.get_content_format() {
+                Some(f) => {
+                    assert!(rl <= 2, "C19: a Content-Format value longer than two bytes names no format");
+                    assert!(usize::from(f) == v, "C19: get_content_format reads the big-endian id");
+                }
+                None => assert!(rl > 2 || ref_content_format(v).is_none(), "C19: a registered id surfaces as its format"),
+            }
+        }
+    }
+    let n: usize = kani::any();
+    if let Ok(f) = ContentFormat::try_from(n) {
+        p.set_content_format(f);
+        assert!(p.get_content_format() == Some(f), "C19: what set_content_format stores is what get_content_format shows, whatever was there before");
+        match p.get_option(CoapOption::ContentFormat) {
+            Some(list) => {
+                assert!(list.len() == 1, "C19: set_content_format leaves exactly one Content-Format value");
+                let (exp, en) = ref_uint(n as u64);
+                let v = list.front().unwrap();
+                assert!(v.len() == en, "C19: Content-Format is stored as the shortest big-endian id");
+                let i: usize = kani::any();
+                if i < en {
+                    assert!(v[i] == exp[i], "C19: Content-Format is stored as the shortest big-endian id");
+                }
+            }
+            None => assert!(false, "C19: set_content_format stores the option"),
+        }
+        kani::cover!(pre == 1 && n == 50, "JSON set over an earlier format");
+        kani::cover!(pre == 2 && rl == 2, "set over a raw two-byte value");
+        kani::cover!(n == 0, "text/plain (empty value)");
+    }
+    core::mem::forget(p);
+}
+
+//@ props=C06 tier=quick timeout=1200 mem=12 cap=2
+//@ functions=Packet::add_option_as, Packet::set_options_as, Packet::get_options_as, Packet::get_first_option_as, Packet::get_option, Packet::get_first_option
+//@ bounds=one concrete option number (Size1), two u32 values (every pair) added through add_option_as, then a third (u16) through set_options_as
+//@ what=the typed setters store exactly the wrapper encodings, element by element and in order; the typed getters return the same numbers; set_options_as replaces
+#[kani::proof]
+#[kani::unwind(8)]
+#[kani::stub(core::fmt::write, crate::verif_harness::stub_write)]
+fn c06_typed_accessors() {
+    let mut p = Packet::new();
+    let a: u32 = kani::any();
+    let b: u32 = kani::any();
+    p.add_option_as(CoapOption::Size1, OptionValueU32(a));
+    p.add_option_as(CoapOption::Size1, OptionValueU32(b));
+    let (ea, na) = ref_uint(a as u64);
+    let (eb, nb) = ref_uint(b as u64);
+    match p.get_option(CoapOption::Size1) {
+        Some(list) => {
+            assert!(list.len() == 2, "C06: two typed values stored");
+            let first = list.front().unwrap();
+            let second = list.back().unwrap();
+            assert!(first.len() == na && second.len() == nb, "C06: stored bytes are the wrapper encodings");
+            let i: usize = kani::any();
+            if i < na { assert!(first[i] == ea[i], "C06: first stored value = minimal big-endian"); }
+            if i < nb { assert!(second[i] == eb[i], "C06: second stored value = minimal big-endian, order kept"); }
+        }
+        None => assert!(false, "C06: add_option_as stores the option"),
+    }
+    match p.get_first_option_as::<OptionValueU32>(CoapOption::Size1) {
+        Some(Ok(v)) => assert!(v.0 == a, "C06: get_first_option_as returns the first value"),
+        _ => assert!(false, "C06: get_first_option_as decodes"),
+    }
+    match p.get_options_as::<OptionValueU32>(CoapOption::Size1) {
+        Some(l) => {
+            assert!(l.len() == 2, "C06: get_options_as returns every value");
+            match (l.front(), l.back()) {
+                (Some(Ok(x)), Some(Ok(y))) => assert!(x.0 == a && y.0 == b, "C06: get_options_as keeps the order"),
+                _ => assert!(false, "C06: get_options_as decodes"),
+            }
+        }
+        None => assert!(false),
+    }
+    assert!(p.get_first_option_as::<OptionValueU32>(CoapOption::Size2).is_none(), "C06: an absent option reads as None");
+    // narrower getter on a wider value
+    match p.get_first_option_as::<OptionValueU16>(CoapOption::Size1) {
+        Some(Ok(v)) => assert!(na <= 2 && v.0 as u32 == a, "C06: a narrower wrapper accepts only what fits"),
+        Some(Err(_)) => assert!(na > 2, "C06: a narrower wrapper rejects longer values"),
+        None => assert!(false),
+    }
+    let c: u16 = kani::any();
+    let mut l = LinkedList::new();
+    l.push_back(OptionValueU16(c));
+    p.set_options_as(CoapOption::Size1, l);
+    match p.get_options_as::<OptionValueU16>(CoapOption::Size1) {
+        Some(l) => {
+            assert!(l.len() == 1, "C06: set_options_as replaces the values");
+            match l.front() {
+                Some(Ok(x)) => assert!(x.0 == c, "C06: set_options_as then get_options_as"),
+                _ => assert!(false),
+            }
+        }
+        None => assert!(false),
+    }
+    kani::cover!(na == 4 && nb == 0, "a four-byte value then zero");
+    kani::cover!(na == 3, "three-byte value");
+    core::mem::forget(p);
+}
